@@ -52,7 +52,12 @@ std::vector<Violation> run_diff(const Plan& base, Sim** keep, std::string* detai
             // first differing line
             std::istringstream a(ref), b(t); std::string la, lb; int n = 0;
             while (true) { bool ea = !std::getline(a, la), eb = !std::getline(b, lb); ++n; if (ea && eb) break; if (ea || eb || la != lb) break; }
-            out.push_back({"C19", "chunking_dependent", "logical trace differs between read chunking 0 (everything available) and " + std::to_string(mode) +
+            // K13: a well-formed server DISCONNECT in the burst: what is buffered BEHIND it in the same read is still parsed and
+            // delivered, what arrives in a later read is not (the client is shutting the connection down by then)
+            bool srv_disc = false;
+            for (auto& l : s->logs) if (l.k == LogRec::disconnect) srv_disc = true;
+            if (first) for (auto& l : first->logs) if (l.k == LogRec::disconnect) srv_disc = true;
+            out.push_back({"C19", srv_disc ? "chunking_dependent_after_server_disconnect" : "chunking_dependent", "logical trace differs between read chunking 0 (everything available) and " + std::to_string(mode) +
                            (mode == 1 ? " (single bytes)" : " (random sizes)") + " at line " + std::to_string(n) + ": '" + la.substr(0, 120) + "' vs '" + lb.substr(0, 120) + "'"});
         }
         if (mode == 0) first = std::move(s);
